@@ -395,23 +395,33 @@ func ExtractConfirmationsFromViewChangeMessages(vcms []*ViewChangeMessage) []*pr
 		proof := header.PreparedProof()
 		var proofBuilder *protocol.PreparedProofBuilder = nil
 		if proof != nil && len(proof.Raw()) > 0 {
-			ppBlockRefBuilder := &protocol.BlockRefBuilder{
-				MessageType: proof.PreprepareBlockRef().MessageType(),
-				InstanceId:  proof.PreprepareBlockRef().InstanceId(),
-				BlockHeight: proof.PreprepareBlockRef().BlockHeight(),
-				View:        proof.PreprepareBlockRef().View(),
-				BlockHash:   proof.PreprepareBlockRef().BlockHash(),
+			// parts that are absent in the vote stay absent, so that the re-encoded header is
+			// byte-identical to the one the voter signed
+			var ppBlockRefBuilder, pBlockRef *protocol.BlockRefBuilder
+			var ppSender *protocol.SenderSignatureBuilder
+			if len(proof.PreprepareBlockRef().Raw()) > 0 {
+				ppBlockRefBuilder = &protocol.BlockRefBuilder{
+					MessageType: proof.PreprepareBlockRef().MessageType(),
+					InstanceId:  proof.PreprepareBlockRef().InstanceId(),
+					BlockHeight: proof.PreprepareBlockRef().BlockHeight(),
+					View:        proof.PreprepareBlockRef().View(),
+					BlockHash:   proof.PreprepareBlockRef().BlockHash(),
+				}
 			}
-			ppSender := &protocol.SenderSignatureBuilder{
-				MemberId:  proof.PreprepareSender().MemberId(),
-				Signature: proof.PreprepareSender().Signature(),
+			if len(proof.PreprepareSender().Raw()) > 0 {
+				ppSender = &protocol.SenderSignatureBuilder{
+					MemberId:  proof.PreprepareSender().MemberId(),
+					Signature: proof.PreprepareSender().Signature(),
+				}
 			}
-			pBlockRef := &protocol.BlockRefBuilder{
-				MessageType: proof.PrepareBlockRef().MessageType(),
-				InstanceId:  proof.PrepareBlockRef().InstanceId(),
-				BlockHeight: proof.PrepareBlockRef().BlockHeight(),
-				View:        proof.PrepareBlockRef().View(),
-				BlockHash:   proof.PrepareBlockRef().BlockHash(),
+			if len(proof.PrepareBlockRef().Raw()) > 0 {
+				pBlockRef = &protocol.BlockRefBuilder{
+					MessageType: proof.PrepareBlockRef().MessageType(),
+					InstanceId:  proof.PrepareBlockRef().InstanceId(),
+					BlockHeight: proof.PrepareBlockRef().BlockHeight(),
+					View:        proof.PrepareBlockRef().View(),
+					BlockHash:   proof.PrepareBlockRef().BlockHash(),
+				}
 			}
 			pSendersIter := proof.PrepareSendersIterator()
 			pSenders := make([]*protocol.SenderSignatureBuilder, 0, 1)
